@@ -7,22 +7,25 @@ Import ListNotations.
 Definition P_KIND := 0%N.   Definition P_RETURNS := 1%N.  Definition P_RET := 2%N.
 Definition P_CAGR := 3%N.   Definition P_VOL := 4%N.      Definition P_MDD := 5%N.
 Definition P_SHARPE := 6%N. Definition P_DDDATES := 7%N.  Definition P_EXTREMES := 8%N.
-Definition P_VECTORS := 9%N.
+Definition P_VECTORS := 9%N.  Definition P_FREQ := 10%N.
 
 Record pcase := mkPCase {
   pc_table : libm_table;
   pc_snaps : list (snapshot float);
   pc_obs : option (output float);       (* None = the code panicked *)
+  pc_freq : frequency;
+  pc_freq_name : string;                (* output.frequency as observed ("" when the code panicked) *)
 }.
 
 Definition lor_all (l : list N) : N := fold_left N.lor l 0%N.
 
 Definition pcase_mask (qk : quirks) (c : pcase) : N :=
   let NFp : Num float := FloatNum (pc_table c) in
-  match @calculate float NFp qk (pc_snaps c), pc_obs c with
+  match @calculate_freq float NFp qk (pc_freq c) (pc_snaps c), pc_obs c with
   | Panic _, None => 0%N
-  | Ok m, Some o =>
+  | Ok (m, fname), Some o =>
       lor_all [
+        bit P_FREQ (String.eqb fname (pc_freq_name c));
         bit P_RETURNS (list_eqb feq (o_returns m) (o_returns o));
         bit P_RET (feq (o_ret m) (o_ret o));
         bit P_CAGR (feq (o_cagr m) (o_cagr o));
